@@ -43,15 +43,22 @@ class Vdrv(object):
         self.errf = None
         self.requests = 0
         self.restarts = 0
+        self.progf = None
 
     def start(self):
         self.errf = tempfile.TemporaryFile()
+        if self.progf is None:
+            fd, self.progf = tempfile.mkstemp(prefix="vdrv_prog_")
+            os.write(fd, b"\0" * 64)
+            os.close(fd)
+        env_extra = dict(self.env_extra or {})
+        env_extra["VDRV_PROGRESS"] = self.progf
 
         def pre():
             resource.setrlimit(resource.RLIMIT_CORE, (0, 0))
             resource.setrlimit(resource.RLIMIT_FSIZE, (256 << 20, 256 << 20))
         self.p = subprocess.Popen([self.exe, str(self.timeout_cpu)], stdin=subprocess.PIPE, stdout=subprocess.PIPE,
-                                  stderr=self.errf, env=proc.base_env(self.env_extra), preexec_fn=pre,
+                                  stderr=self.errf, env=proc.base_env(env_extra), preexec_fn=pre,
                                   close_fds=True, bufsize=0)
         self.buf = b""
 
@@ -70,6 +77,23 @@ class Vdrv(object):
         if self.errf is not None:
             self.errf.close()
             self.errf = None
+
+    def progress(self):
+        """(case index, phase) last stored by a sweep request."""
+        try:
+            import struct
+            with open(self.progf, "rb") as f:
+                d = f.read(8)
+            return struct.unpack("<II", d)
+        except Exception:
+            return (None, None)
+
+    def __del__(self):
+        try:
+            if self.progf:
+                os.unlink(self.progf)
+        except Exception:
+            pass
 
     def _readline(self):
         deadline = time.time() + self.wall_s
@@ -127,8 +151,11 @@ class Vdrv(object):
         self.restarts += 1
         sig = -rc if rc is not None and rc < 0 else None
         if wall:
-            raise Died("wall", None, err, timeout=False, signal=None)
-        raise Died(why, san, err, timeout=timeout, signal=sig)
+            e = Died("wall", None, err, timeout=False, signal=None)
+        else:
+            e = Died(why, san, err, timeout=timeout, signal=sig)
+        e.progress = self.progress()
+        raise e
 
     # ---- convenience wrappers ----
     def asm(self, src, opts=""):
@@ -168,6 +195,45 @@ class Vdrv(object):
         return {"rc": int(d["rc"]), "exit": d["exit"] == "1", "exitcode": int(d["exitcode"]),
                 "badreg": int(d["badreg"]), "regs": regs_out, "diff": diff,
                 "dump": unhx(d["dump"]).decode("latin-1"), "runout": unhx(d["runout"]).decode("latin-1")}
+
+    def walk(self, cpu, start, end, addr, data):
+        d = self.request(["walk", cpu, str(start), str(end), str(addr), hx(data)])
+        if "err" in d:
+            raise RuntimeError("vdrv walk: " + d["err"])
+        steps = []
+        for ent in d["steps"].split(";"):
+            if ent:
+                a, _, n = ent.partition(":")
+                steps.append((int(a, 16), int(n)))
+        return steps
+
+    def sweep(self, cpu, addr, first, count, tail, mode, maxlen):
+        d = self.request(["sweep", cpu, str(addr), str(first), str(count), hx(tail), str(mode), str(maxlen)])
+        if "err" in d:
+            raise RuntimeError("vdrv sweep: " + d["err"])
+        hist = {}
+        for kv in d["hist"].split(";"):
+            if kv:
+                k, _, v = kv.partition(":")
+                hist[int(k)] = int(v)
+        bad = []
+        for ent in d["bad"].split(";"):
+            if ent:
+                f = ent.split(":")
+                bad.append((int(f[0]), f[1], [int(x) for x in f[2:]]))
+        rows = None
+        if mode & 1:
+            rows = []
+            for ent in d["rows"].split("\x1f"):
+                if not ent:
+                    continue
+                n, _, t = ent.partition(":")
+                if t[:1] == "h":
+                    txt = unhx(t[1:]).decode("latin-1")
+                else:
+                    txt = t[1:]
+                rows.append((int(n), txt))
+        return {"unit": int(d["unit"]), "hist": hist, "bad": bad, "rows": rows}
 
     def cpus(self):
         d = self.request(["cpus"])
